@@ -15,6 +15,7 @@
 #include <cstdio>
 #include <cstdlib>
 #include <cstring>
+#include <ctime>
 #include <functional>
 #include <map>
 #include <set>
@@ -362,7 +363,7 @@ inline ForkOutcome run_forked(const Prop &prop, const std::vector<uint8_t> &tape
     close(pr[0]);
     dup2(pe[1], 2);
     signal(SIGALRM, on_alarm);
-    alarm(60);
+    alarm((unsigned)env_int("VERIF_FORK_TIMEOUT", 30));
     Result r;
     if (jcase && prop.judge_json)
       prop.judge_json(*jcase, r);
@@ -440,8 +441,12 @@ inline ForkOutcome run_forked(const Prop &prop, const std::vector<uint8_t> &tape
 // ddmin-style tape shrinking with a forked oracle; keeps failures with the same signature
 inline std::vector<uint8_t> shrink_forked(const Prop &prop, std::vector<uint8_t> tape, const std::string &sig,
                                           int budget = 600) {
+  time_t deadline = time(nullptr) + env_int("VERIF_SHRINK_SECONDS", 150);
   auto still = [&](const std::vector<uint8_t> &t) {
-    if (budget-- <= 0) return false;
+    if (budget-- <= 0 || time(nullptr) > deadline) {
+      budget = 0;
+      return false;
+    }
     ForkOutcome o = run_forked(prop, t);
     return o.failed && o.sig == sig;
   };
@@ -507,7 +512,7 @@ inline int harness_main(int argc, char **argv) {
       pos.push_back(a);
   }
   signal(SIGALRM, on_alarm);
-  runner.case_timeout = (unsigned)env_int("VERIF_CASE_TIMEOUT", 120);
+  runner.case_timeout = (unsigned)env_int("VERIF_CASE_TIMEOUT", 60);
   alarm(runner.case_timeout);
 
   if (mode == "rc") {
